@@ -28,11 +28,14 @@ def witness(title_prefix):
 from props._skiptable import skip_table, run_outcome_table
 
 
-from props._em import EMStream, em_table
+from props._em import EMStream, em_table, em_join_table
+
+
+from props import _project
 
 
 def tables(ctx):
-    return [skip_table(), em_table(), run_outcome_table()]
+    return [skip_table(), em_table(), em_join_table(), run_outcome_table(), _project.project_run_table()]
 
 
 class EM(EMStream):
@@ -52,5 +55,28 @@ class Run(PropRunStream):
     corpus = [witness("D17 "), witness("D10 "), W2.EMPTY_BACKEND_ERROR, W2.FAULT_THEN_INTERRUPT, W2.INTERRUPT_THEN_FAULT] + W2.PROTOCOL_FAULTS
 
 
+class Project(_project.ProjectRunStream):
+    """the same cases started through PreparedProject.run (what `lcc run` calls) of a project with pre_run / post_run hooks"""
+    name = "C11.project"
+    prop = "C11"
+    profile = "basic"
+    oracles = ("C11",)
+    quick_cases = 160
+    quick_seconds = 14
+    thorough_cases = 3000
+    thorough_seconds = 200
+    p_fault = 0.7
+    p_both = 0.15
+    p_base_fault = 0.1
+    corpus = _project.CORPUS
+
+
+LEAN_MODULES = LEAN_MODULES + ["LccModel.Props.C11Project"]
+PROPS_FILES = PROPS_FILES + ["LccModel/Props/C11Project.lean"]
+NAMESPACES = dict(NAMESPACES, **{"LccModel/Props/C11Project.lean": "LccModel.C11Project"})
+TRUSTED_BASE = TRUSTED_BASE + _project.PROJECT_TRUSTED
+RULE = RULE + "; " + _project.PROJECT_RULE
+
+
 def streams(ctx):
-    return [EM(), Run()]
+    return [EM(), Project(), Run()]
